@@ -11,6 +11,7 @@ replaced by an in-process stub).  Configurations are round-tripped through
 metadata.entity_descriptor.
 """
 import itertools
+import os
 import random
 import re
 
@@ -64,6 +65,9 @@ def gen_entity(rng, eid, tag):
         d["aa"] = {"keys": keys(), "attribute_service": eps("aa", lo=1)}
     if rng.random() < 0.4:
         d["entity_categories"] = rng.sample(CATS, rng.randint(1, 2))
+    if rng.random() < 0.3:
+        # the categories the entity honours as a releasing party - another attribute, another claim
+        d["entity_category_support"] = rng.sample(CATS, rng.randint(1, 2))
     # a sibling role descriptor of the same entity for SAML 1.x only (its own endpoints, key and requested attributes): none of it is a SAML 2.0
     # declaration of the entity
     if rng.random() < 0.3 and ("idp" in roles or "sp" in roles):
@@ -91,6 +95,7 @@ def gen_docset(rng):
 
 
 PAST_SPELLINGS = ["Z", ".1Z", ".123Z", ".1234567Z", ".123456789Z", "", "+00:00", "+01:00", "-05:00", ".5+02:00"]
+JUST_PAST_SPELLINGS = ["Z", "+01:00", "+02:00", "+14:00", "+05:30", "-01:00", "-12:00", ".5+03:00", ""]
 FUTURE_SPELLINGS = ["Z", ".1Z", ".123Z", ".1234567Z", ".123456789Z", ""]     # (SAML wants UTC; what a zone offset on a future instant does is not asserted)
 
 
@@ -101,6 +106,11 @@ def vu(x, who="", offsets=True):
     import zlib
     t = T0 - 86400 if x == "past" else T0 + 86400 * 30
     sp = (PAST_SPELLINGS if x == "past" else FUTURE_SPELLINGS)
+    if x == "past" and zlib.crc32(("just/%s" % who).encode()) % 3 == 0:
+        # expired only just (half an hour ago), written in zones far from UTC: an offset read with the wrong sign, or not at all, moves the
+        # instant by hours
+        t = T0 - 1800
+        sp = JUST_PAST_SPELLINGS
     if not offsets:
         # an entity inside an aggregate: a spelling the library's schema validation refuses would take the whole aggregate with it
         sp = [k for k in sp if "+" not in k and "-" not in k]
@@ -129,7 +139,7 @@ def gen_cases(tier, seed):
     n = 40 if tier == "quick" else 2400
     for k in range(n):
         cases.append({"id": "docset-%d" % k, "sig": ["docset", k], "kind": "docset", "k": k})
-    for k in range(8 if tier == "quick" else 400):
+    for k in range(16 if tier == "quick" else 400):
         cases.append({"id": "reload-%d" % k, "sig": ["reload", k], "kind": "reload", "k": k})
     for k in range(12 if tier == "quick" else 600):
         cases.append({"id": "mixed-%d" % k, "sig": ["mixed", k], "kind": "mixed", "k": k})
@@ -141,7 +151,14 @@ def gen_cases(tier, seed):
             for form in CONFIG_FORMS[1:]:
                 cases.append({"id": "signed-%s-%s-%s" % (variant, "entities" if wrapped else "entity", form), "sig": ["signed", variant, wrapped, form],
                               "kind": "signed", "variant": variant, "wrapped": wrapped, "form": form})
-    for k in range(6 if tier == "quick" else 300):
+    # validUntil of a stand-alone descriptor: every (how long ago / ahead) x (spelling, zones far from UTC included) - expired is never served
+    for ago in (1800, 7200, 86400, 40 * 3600, 10 ** 7):
+        for zone in ("Z", "", "+00:00", "+01:00", "+02:00", "+05:30", "+14:00", "-00:30", "-01:00", "-12:00", ".5+03:00", ".25Z"):
+            cases.append({"id": "validuntil-expired-%ds-ago-%s" % (ago, zone or "no-zone"), "sig": ["validuntil", "past", ago, zone], "kind": "validuntil", "ago": ago, "zone": zone})
+    for ahead in (1800, 86400 * 30):
+        for zone in ("Z", "", ".25Z"):
+            cases.append({"id": "validuntil-in-%ds-%s" % (ahead, zone or "no-zone"), "sig": ["validuntil", "future", ahead, zone], "kind": "validuntil", "ago": -ahead, "zone": zone})
+    for k in range(16 if tier == "quick" else 300):
         cases.append({"id": "roundtrip-%d" % k, "sig": ["roundtrip", k], "kind": "roundtrip", "k": k})
     return cases
 
@@ -188,7 +205,13 @@ def run_reload(case, ctx, viol, counters, sigs):
     rng = random.Random("%s/%s" % (ctx.seed, case["id"]))
     clock.install()
     clock.set_now(T0)
-    path = os.path.join(ctx.scratch, "reload-%s.xml" % case["k"])
+    # every way a running process refreshes a file source: the same load() call again, the class-style loader spec through imp(), a directory
+    how = ["load-local-file", "imp-classlist-file", "load-local-directory", "imp-local-file"][case["k"] % 4]
+    base = os.path.join(ctx.scratch, "reload-%s" % case["k"])
+    path = base + ".xml"
+    if how == "load-local-directory":
+        os.makedirs(base + ".d", exist_ok=True)
+        path = os.path.join(base + ".d", "federation.xml")
     store = new_store()
     generations = []
     for g in range(3):
@@ -202,10 +225,18 @@ def run_reload(case, ctx, viol, counters, sigs):
         with open(path, "w") as f:
             f.write(render(src))
         try:
-            store.load("local", path)
+            if how == "load-local-file":
+                store.load("local", path)
+            elif how == "imp-classlist-file":
+                store.imp([{"class": "saml2_tophat.mdstore.MetaDataFile", "metadata": [(path,)]}])
+            elif how == "imp-local-file":
+                store.imp({"local": [path]})
+            else:
+                store.load("local", os.path.dirname(path))
         except Exception as exc:
             counters["load_raised:" + type(exc).__name__] = counters.get("load_raised:" + type(exc).__name__, 0) + 1
             continue
+        counters["refresh:" + how] = counters.get("refresh:" + how, 0) + 1
         before = len(viol)
         compare(dict(case, id="%s/generation-%d" % (case["id"], g)), store, [src], viol, counters, sigs, tag="reload")
         if len(viol) > before:
@@ -215,6 +246,8 @@ def run_reload(case, ctx, viol, counters, sigs):
             break
         counters["reloads"] = counters.get("reloads", 0) + (1 if g else 0)
     os.unlink(path)
+    if how == "load-local-directory":
+        os.rmdir(os.path.dirname(path))
     clock.set_now(None)
 
 
@@ -385,6 +418,13 @@ def compare(case, store, sources, viol, counters, sigs, tag=None):
             adm = [sorted(e.get("entity_categories", [])) for e in decls]
             if got not in adm:
                 bad("C16/entity-categories-differ", "%s -> %r, declared %r" % (eid, got, adm))
+            try:
+                got = sorted(store.supported_entity_categories(eid))
+            except Exception as exc:
+                got = "raise:" + type(exc).__name__
+            adm = [sorted(e.get("entity_category_support") or []) for e in decls]
+            if got not in adm:
+                bad("C16/entity-categories-differ", "%s supported_entity_categories -> %r, declared %r" % (eid, got, adm))
             hit("requirement_lookups")
             try:
                 ar = store.attribute_requirement(eid)
@@ -649,6 +689,16 @@ def run_roundtrip(case, ctx, viol, counters, sigs):
         cnf = fed.idp_conf(eid=host + "/md", key_i=ki, endpoints={"single_sign_on_service": sso, "single_logout_service": slo})
         role = "idpsso"
         want = {"single_sign_on_service": sso, "single_logout_service": slo}
+    # key material in every arrangement a configuration allows: further signing certificates (roll-over), the encryption pair being the signing
+    # pair again, both
+    extra_sign = []
+    arrangement = ["plain", "additional-signing-cert", "encryption-pair-is-signing-pair", "both"][case["k"] // 2 % 4]
+    if arrangement in ("additional-signing-cert", "both"):
+        extra_sign = [(ki + 5) % 12]
+        cnf["additional_cert_files"] = [fed.key(extra_sign[0])[1]]
+    if arrangement in ("encryption-pair-is-signing-pair", "both"):
+        eks = (ki,)
+        cnf["encryption_keypairs"] = [{"key_file": fed.key(ki)[0], "cert_file": fed.key(ki)[1]}]
     xml = fed.metadata_of(cnf)
     store = new_store()
     store.imp([{"class": "saml2_tophat.mdstore.InMemoryMetaData", "metadata": [(xml,)]}])
@@ -674,7 +724,57 @@ def run_roundtrip(case, ctx, viol, counters, sigs):
     for k in eks:
         if "k%02d" % k not in enc:
             viol.append({"key": "C16/generated-metadata-does-not-load-back-to-configured-keys", "what": "%s: encryption certs served %r, configured k%02d" % (eid, enc, k)})
-    sigs.add(("roundtrip", role))
+    # ... and nothing beyond what the configuration declares for that use
+    want_sign = sorted(set("k%02d" % k for k in [ki] + extra_sign))
+    if signing != want_sign:
+        viol.append({"key": "C16/generated-metadata-does-not-load-back-to-configured-keys",
+                     "what": "%s (%s): signing certs served %r, configured %r" % (eid, arrangement, signing, want_sign)})
+    if eks and enc != sorted(set("k%02d" % k for k in eks)):
+        viol.append({"key": "C16/generated-metadata-does-not-load-back-to-configured-keys",
+                     "what": "%s (%s): encryption certs served %r, configured %r" % (eid, arrangement, enc, sorted(set("k%02d" % k for k in eks)))})
+    sigs.add(("roundtrip", role, arrangement))
+
+
+def run_validuntil(case, ctx, viol, counters, sigs):
+    import re as _re
+    clock.install()
+    clock.set_now(T0)
+    t = T0 - case["ago"]
+    m = _re.match(r"^(\.\d+)?(Z|[+-]\d\d:\d\d)?$", case["zone"])
+    frac, zone = m.group(1) or "", m.group(2) or ""
+    if zone and zone != "Z":
+        sign = 1 if zone[0] == "+" else -1
+        t += sign * (int(zone[1:3]) * 3600 + int(zone[4:6]) * 60)      # the same instant, written in that zone
+    text = clock.iso(t, z=False) + frac + zone
+    eid = "https://vu.example.org/md"
+    doc = mdgen.entity({"eid": eid, "valid_until": text, "idp": {"keys": [("signing", 3)], "sso": [(REDIR, "https://vu.example.org/sso")]}})
+    for how in ("imp-inline", "load-inline", "file"):
+        store = new_store()
+        try:
+            if how == "imp-inline":
+                store.imp([{"class": "saml2_tophat.mdstore.InMemoryMetaData", "metadata": [(doc,)]}])
+            elif how == "load-inline":
+                store.load("inline", doc)
+            else:
+                path = os.path.join(ctx.scratch, "vu-%s.xml" % abs(hash(case["id"])))
+                with open(path, "w") as f:
+                    f.write(doc)
+                store.load("local", path)
+        except Exception as exc:
+            counters["load_raised:" + type(exc).__name__] = counters.get("load_raised:" + type(exc).__name__, 0) + 1
+        counters["validity_lookups"] = counters.get("validity_lookups", 0) + 1
+        sigs.add(("validuntil", how, case["ago"] > 0, case["zone"]))
+        try:
+            served = eid in store.keys() and bool(store.single_sign_on_service(eid, REDIR))
+        except Exception:
+            served = False
+        if case["ago"] > 0 and served:
+            viol.append({"key": "C16/expired-entity-served", "what": "stand-alone descriptor with validUntil=%r (%d s ago at the virtual now) loaded via %s is served" % (
+                text, case["ago"], how)})
+        elif case["ago"] < 0 and not served:
+            viol.append({"key": "C16/declared-entity-not-served", "what": "stand-alone descriptor with validUntil=%r (%d s ahead) loaded via %s is not served" % (
+                text, -case["ago"], how)})
+    clock.set_now(None)
 
 
 def run_case(case, ctx):
@@ -687,6 +787,8 @@ def run_case(case, ctx):
         run_mixed(case, ctx, viol, counters, sigs)
     elif case["kind"] == "signed":
         run_signed(case, ctx, viol, counters, sigs)
+    elif case["kind"] == "validuntil":
+        run_validuntil(case, ctx, viol, counters, sigs)
     else:
         run_roundtrip(case, ctx, viol, counters, sigs)
     uniq = {}
